@@ -68,6 +68,9 @@ def op_line(op, v, sr, ex, dlen):
         return '%s %s $wdata' % (op, v), sr.syms['wdata']
     if op == 'read':
         return 'read %s 3' % v, None
+    if op.startswith('set_time_'):
+        sr.syms['tval'] = ex.fresh('tval', 64)
+        return 'set_time %s %s $tval' % (v, op[-1]), None
     return '%s %s' % (op, v), None
 
 
@@ -76,7 +79,7 @@ def check_outcome(prop_tags, out, exp, op, key_base, findings, sr, t_pre, v, pro
     should have changed the tree as exp.tree"""
     ex = sr.ex
     o = sr.last
-    if exp.status == 'unspecified':
+    if exp.status in ('unspecified', 'either'):
         return None
     if o.tag in ('panic', 'deadlock'):
         return None          # reported under C13
